@@ -791,6 +791,28 @@ func TestCheck(t *testing.T) {
 		})
 	})
 
+	// Phase B3b: short numbers that stand for astronomically large or small quantities (exponents, long zero runs) in every size
+	// form: the work done must not follow the quantity. A call that does not come back leaves this check inconclusive (time limit).
+	r.Phase("B3b: size numbers with huge exponents and zero mantissas (0e99999999999999, 1e-99999999, ...) as text, JSON number, JSON string and object value x rule words", func() {
+		r.Serial(func(w *vkit.W) {
+			var nums []string
+			for _, m := range []string{"0", "1", "0.0", "00", "18446744073709551615", "1.5", "-0"} {
+				for _, e := range []string{"e99999999999999", "E+99999999999999", "e-99999999999999", "e18446744073709551616", "e2147483648", "e9223372036854775807", "e1000000", "e19", "e20", "e-1", "e"} {
+					nums = append(nums, m+e)
+				}
+			}
+			for _, n := range nums {
+				for _, a := range []string{n, n + " kB", "\"" + n + "\"", "\"" + n + " KiB\"", "{\"value\":" + n + ",\"unit\":\"KiB\"}", "{\"value\":\"" + n + "\",\"unit\":\"B\"}", " " + n + " "} {
+					for _, rule := range []int{0, 2, 4, 6, 14, -1} {
+						c := Case{Pkg: "size", A: vkit.B(a), B: vkit.B("1 kB"), Rule: rule, Limit: -1}
+						judge(c, w)
+						w.EvalRandom(vkit.Hash64("B3b", a, strconv.Itoa(rule)), true)
+					}
+				}
+			}
+		})
+	})
+
 	// Phase B4: runs of every single byte value (lengths around typical buffer sizes), default limits and limit disabled.
 	r.Phase("B4: runs of each of the 256 byte values, lengths {1,2,3,9,10,11,36,45,63,64,65,66,100,127,128,129,255,256,257,1023,1024,1025}, default and disabled limits", func() {
 		r.Parallel(int64(len(pkgs)), 1, func(w *vkit.W, plo, phi int64) {
